@@ -13,6 +13,8 @@ import Goat.Protocol
 import Goat.ServerStream
 import Goat.Status
 import Goat.Classify
+import Goat.Chain
+import Goat.Stats
 open Goat Goat.Drv
 
 def showOptBytes : Option Bytes → String
@@ -140,6 +142,28 @@ def showEffects (effs : List Classify.Effect) (alive : Bool) : String :=
   "|C:" ++ pick (fun | .cancelStream i => some i | _ => none) ++
   (if alive then "|alive" else "|dead")
 
+def showEv : Chain.Ev → String
+  | .enter k => s!"e{k}"
+  | .exit k => s!"x{k}"
+  | .final => "F"
+
+/-- n logging interceptors: number k appends byte k to the request on the way down and byte 100+k to
+    the reply on the way up; the handler echoes -/
+def chainRun (n : Nat) (req : Bytes) : String :=
+  match n with
+  | 0 => "none"
+  | n + 1 =>
+    let fg : Nat → (Bytes → Bytes) × (Bytes → Bytes) := fun k => ((· ++ [k]), (· ++ [100 + k]))
+    let r := Chain.chained (Chain.logI 0 (fg 0).1 (fg 0).2) (Chain.logChain 1 ((List.range n).map (fun i => fg (i + 1)))) (Chain.logFinal id) req
+    ",".intercalate (r.log.map showEv) ++ "|" ++ hexOf r.val
+
+def parseKind (s : String) : Option Stats.Kind :=
+  match s with
+  | "Begin" => some .begin_ | "End" => some (.end_ false) | "EndErr" => some (.end_ true)
+  | "InHeader" => some .inHeader | "OutHeader" => some .outHeader | "InPayload" => some .inPayload
+  | "OutPayload" => some .outPayload | "InTrailer" => some .inTrailer | "OutTrailer" => some .outTrailer
+  | _ => none
+
 def evalOp (op input : String) : Option String :=
   match op with
   | "b64enc" => (parseHex input).map (fun b => hexOf (Base64.encode b))
@@ -168,6 +192,15 @@ def evalOp (op input : String) : Option String :=
         let lo ← lo.toInt?; let hi ← hi.toInt?
         some (if lo ≤ (d : Int) ∧ (d : Int) ≤ hi then "in" else s!"out({d})")
       | some d, _ => some s!"out({d})"
+    | _ => none
+  | "chainlog" => match input.splitOn "|" with
+    | [n, req] => do let n ← n.toNat?; let req ← parseHex req; some (chainRun n req)
+    | _ => none
+  | "statshape" => match input.splitOn "|" with
+    | [fin, evs] => (parseList parseKind "," evs).map (fun l =>
+        if Stats.shapeOK (fin == "1") l then
+          "ok:" ++ (match Stats.endErr l with | some true => "err" | some false => "nil" | none => "noend")
+        else "bad")
     | _ => none
   | "srvseq" => (parseList parseSeqEnv ";" input).map (fun es =>
       let (effs, alive) := Classify.runSeq true echoView [] es
